@@ -72,12 +72,7 @@ pub open spec fn swfe_post(w: Whirlpool, mint_a: crate::token_v2::Mint, mint_b: 
 pub struct BumpsShim { pub position: u8 }
 pub struct Context<'a, 'b, 'c, 'info, T> { pub accounts: &'b mut T, pub remaining_accounts: &'c [AccountInfo<'info>], pub bumps: BumpsShim, pub p: core::marker::PhantomData<&'a ()> }
 pub use crate::authority::{AccountInfo, Signer, TokenAccount};
-pub struct Account<'info, T> { pub data: T, pub k: Pubkey, pub p: core::marker::PhantomData<&'info ()> }
-impl<'info, T> Account<'info, T> { pub fn key(&self) -> (r: Pubkey) ensures r == self.k { self.k } }
-impl<'info, T> std::ops::Deref for Account<'info, T> { type Target = T; fn deref(&self) -> (r: &T) ensures *r == self.data { &self.data } }
-impl<'info, T> std::ops::DerefMut for Account<'info, T> {
-    fn deref_mut(&mut self) -> (r: &mut T) ensures *r == old(self).data, *final(r) == final(self).data, final(self).k == old(self).k { &mut self.data }
-}
+pub use crate::anchor_shim::Account;
 pub struct Program<'info, T> { pub k: Pubkey, pub p: core::marker::PhantomData<&'info T> }
 pub struct Token {}
 pub struct UncheckedAccount<'info> { pub k: &'info Pubkey, pub writable: bool }
